@@ -306,6 +306,8 @@ func (db *DB) Merge() error {
 	}
 
 	db.isMerging = true
+	// also on success and on the read / rewrite error paths, which returned with the flag still set
+	defer func() { db.isMerging = false }()
 
 	_, pendingMergeFIds = db.getMaxFileIDAndFileIDs()
 
